@@ -1,6 +1,6 @@
 (* C34 -- MpmcRingBuffer is an exactly-once bounded FIFO.
    Statements only.  Model: Model/MpmcModel.v (one step = one atomic access of tail_/head_/slot.seq or one slot payload
-   access of dispenso::MpmcRingBuffer: emplaceImpl (try_push/try_emplace), the try_pop variants, try_push_batch with
+   access (placement-new, move-out, destructor call: each its own step) of dispenso::MpmcRingBuffer: emplaceImpl (try_push/try_emplace), the try_pop variants, try_push_batch with
    its validation loop and single CAS; ANY number of threads, each running an arbitrary script of pushes and pops, any
    schedule, any kBufferSize >= 2, power of two or not).  Ghost: gpush s = per position (in claim order) the pusher and
    the value; gpopped s = (popper, (position, value returned)) per completed pop; per slot the phase of the position it
@@ -58,7 +58,8 @@ Proof. exact mpmc_bounded. Qed.
 Print Assumptions C34_bounded.
 
 (* in a quiescent state, a thread running try_pop alone fails (2 steps, nothing changes) iff the buffer is empty, and
-   otherwise succeeds (6 steps) delivering the element of position head *)
+   otherwise succeeds (7 steps: head load, tail load, seq load, head CAS, move-out, destructor, seq store) delivering the
+   element of position head *)
 Theorem C34_quiescent_pop_iff_nonempty : forall n progs s t th, 2 <= n -> reach gstep (init n progs) s -> quiescent s = true ->
   nth_error (threads s) t = Some th -> tpc th = PPopLoadHead -> tail s + 2 * N s < 2 ^ 62 ->
   (head s = tail s ->
@@ -66,7 +67,7 @@ Theorem C34_quiescent_pop_iff_nonempty : forall n progs s t th, 2 <= n -> reach 
                         (set_nth (set_nth (threads s) t (goto th (PPopLoadTail (head s)))) t (advance (prog th) ((r_popfail, 0) :: res th)))
                         (gpush s) (gpopped s))) /\
   (head s < tail s ->
-     exists s', solo 6 s t = Some s' /\ head s' = head s + 1 /\ tail s' = tail s /\
+     exists s', solo 7 s t = Some s' /\ head s' = head s + 1 /\ tail s' = tail s /\
              gpopped s' = gpopped s ++ [(Z.of_nat t, (head s, gval (gpush s) (head s)))] /\
              nth_error (threads s') t = Some (advance (prog th) ((r_pop, gval (gpush s) (head s)) :: res th))).
 Proof. exact mpmc_quiescent_pop_iff_nonempty. Qed.
@@ -97,6 +98,14 @@ Theorem C34_lifetimes : forall n progs s, 2 <= n -> reach gstep (init n progs) s
      (forall p, tail s <= p < head s + N s -> is_live (lget (led s) (p mod N s)) = false)).
 Proof. exact mpmc_lifetimes. Qed.
 Print Assumptions C34_lifetimes.
+
+(* the payload is dead before the sequence store that hands the slot back to the producers: a thread about to execute
+   slot.seq.store(head + kBufferSize) holds the slot in phase Taken and the slot holds no live element *)
+Theorem C34_payload_dead_before_release : forall n progs s t th h0 v, 2 <= n -> reach gstep (init n progs) s ->
+  nth_error (threads s) t = Some th -> tpc th = PPopStoreSeq h0 v ->
+  ph (slots s (h0 mod N s)) = Taken t /\ is_live (lget (led s) (h0 mod N s)) = false.
+Proof. exact mpmc_payload_dead_before_release. Qed.
+Print Assumptions C34_payload_dead_before_release.
 
 Theorem C34_destructor_balanced : forall n progs s, 2 <= n -> reach gstep (init n progs) s -> quiescent s = true ->
   tail s < 2 ^ 62 ->
